@@ -278,10 +278,12 @@ func switchThreading(v *VM) *val.Val {
 			v.Push(vl)
 
 		case OP_OBJ_LOAD:
-			idx, w := v.readMediumInt(v.pc)
+			name, w := v.readConst(v.pc)
 			v.pc += w
 			o := v.Pop().Obj()
-			v.Push(o.V[idx])
+			// 对象类型相等不考虑字段顺序, 运行时按值自己的类型定位字段
+			fv, _ := o.Get(name.(string))
+			v.Push(fv)
 
 		// -----------------------------------------------
 		case OP_LEN_STR:
